@@ -21,7 +21,7 @@ func init() {
 		Rule: "polygon phase (a quarter of the lattice spellings are repeated translated by 2^20..2^30, where the area is still exactly representable; 30% of the spellings are handed over with rings laid out as consecutive sub-slices of one backing array): case = one valid lattice polygon (star-shaped or rectilinear integer shell, 0-4 lattice holes in disjoint cells strictly inside) or multi-polygon of 1-3 disjoint members, explored over its spelling orbit (every subset of rings reversed for <= 3 rings, sampled above; random rotation of each ring's start vertex; closed/unclosed spelling per ring) and a float image under a random similarity transform; Area/Centroid (geom and op) compared with exact rational shoelace measures (== on the integer grid, 1e-10 relative on floats); " +
 			"line phase: random and integer line strings (repeated vertices included) with query points on the line, beyond its ends and at random: Length, Distance vs 200-bit references; Point.Buffer vs the regular n-gon; " +
 			"an evaluation is one measured call; non-trivial = shape with a hole or a reversed/rotated spelling whose measure was compared; distinct by spelling hash",
-		Assumptions: []string{"Polygon.Centroid / op.Centroid / op.Area are exercised only under their documented preconditions (closed rings, shell and holes oppositely oriented), as the property states", "polygon coordinates are drawn between 1e-3 and 1e7 in magnitude (areas and centroids are sums of products of two and three coordinates: beyond 1e154 resp. 1e103 the library overflows although the result would be representable - recorded in DESIGN as not taken up); line strings also at 1e155..1e160 and 1e-160..1e-155", "float images up to 10 x size away are judged to 1e-10; images 10^2..10^6 x size away to 1e-10 + 1e-14 x (offset/size), the accuracy of a sum over coordinate differences"},
+		Assumptions: []string{"Polygon.Centroid / op.Centroid / op.Area are exercised only under their documented preconditions (closed rings, shell and holes oppositely oriented), as the property states", "polygon coordinates are drawn between 1e-3 and 1e7 in magnitude, lattice shapes also translated by 2^20..2^50 (areas and centroids are sums of products of two and three coordinates: beyond 1e154 resp. 1e103 the library overflows although the result would be representable - recorded in DESIGN as not taken up); line strings also at 1e155..1e160 and 1e-160..1e-155", "float images up to 10 x size away are judged to 1e-10; images 10^2..10^6 x size away to 1e-10 + 1e-14 x (offset/size), the accuracy of a sum over coordinate differences"},
 		Phases: []core.Phase{
 			{Name: "polygon", NumCases: func(t string) int {
 				if t == "thorough" {
@@ -399,9 +399,10 @@ func runPolygon(c *core.Ctx) {
 			checkSpelling(c, mpS, sps, wantA, wantCx, wantCy, 0, 1, "grid", mask)
 			if r.Chance(0.25) {
 				// the same lattice shape far from the origin (projected map coordinates: a 100-unit
-				// shape at 2^20 .. 2^30): the area is unchanged and still exactly representable, so a
-				// formula that multiplies absolute coordinates instead of differences loses it
-				e := r.IntRange(20, 30)
+				// shape at 2^20 .. 2^50 - at 2^50 the coordinates still hold quarters): the area is
+				// unchanged and still exactly representable, so a formula that multiplies absolute
+				// coordinates instead of differences loses it (from about 2^45 on for these shapes)
+				e := r.IntRange(20, 50)
 				dx, dy := math.Ldexp(1, e)*float64(1-2*r.Intn(2)), math.Ldexp(1, r.IntRange(20, e))*float64(1-2*r.Intn(2))
 				far := make(geom.MultiPolygon, nm)
 				for m, pg := range mp {
